@@ -15,7 +15,7 @@ import (
 // thorough tier), with the same oracle: three runs in new processes give the same status, output
 // and files, and the thread counts 1, 4, 16 agree.
 func TestC18CliEach(t *testing.T) {
-	r := h.NewRecorder(t, "C18", "cli-each", "every command template x 2 (thorough 4) data sets generated from VERIF_SEED (one of them with 67-130 tips in the thorough tier): each command run 3 times in new processes with the same --seed gives the same exit status, stdout and written files (dates in logs masked); commands with -t agree between 1, 4 and 16 threads (per-tree records as multisets); every case is non-trivial")
+	r := h.NewRecorder(t, "C18", "cli-each", "every command template x 2 (thorough 4) data sets generated from VERIF_SEED (one of them with 67-130 tips in the thorough tier; in the quick tier the commands with -t get such a data set too): each command run 3 times in new processes with the same --seed gives the same exit status, stdout and written files (dates in logs masked); commands with -t agree between 1, 4 and 16 threads (per-tree records as multisets); every case is non-trivial")
 	var rc CliCase
 	if replaying, mine := r.ReplayCase(&rc); replaying {
 		if mine {
@@ -35,9 +35,16 @@ func TestC18CliEach(t *testing.T) {
 		large := i == 3
 		data = append(data, rapid.Custom(func(t *rapid.T) clit.Dataset { return clit.GenDatasetSized(t, large) }).Example(int(h.Seed())*100+50+i))
 	}
+	// commands with -t also get a data set of 67-130 tips in the quick tier: threads that share a
+	// buffer only step on each other when the trees give them enough to do
+	largeSet := rapid.Custom(func(t *rapid.T) clit.Dataset { return clit.GenDatasetSized(t, true) }).Example(int(h.Seed())*100 + 59)
 	k := 0
 	for _, tp := range clit.Templates() {
-		for i, d := range data {
+		sets := data
+		if tp.Threads && !h.Thorough() {
+			sets = append(append([]clit.Dataset{}, data...), largeSet)
+		}
+		for i, d := range sets {
 			k++
 			if k%h.NShards() != h.Shard() {
 				continue
